@@ -16,7 +16,7 @@ package json
 
 // C02 (integers): the value handed to strconv is the mathematical value of the
 // argument, in base 10; strconv's decimal text is trusted to denote it.
-//@ track strconv.AppendInt, strconv.AppendUint, strconv.AppendBool
+//@ track strconv.AppendInt, strconv.AppendUint, strconv.AppendBool, Time.Unix, Time.UnixNano, Time.AppendFormat, Encoder.AppendFloat64
 
 //@ var JSONMarshalFunc(v) res, err
 //@   modifies nothing
@@ -123,6 +123,7 @@ package json
 //@   flag tags !binary_log
 //@   requires valueok(dst)
 //@   ensures emitsvalue(res, dst)
+//@   ensures [C02] len(res) == len(dst) + 4 && res[len(dst)] == 'n' && res[len(dst)+1] == 'u' && res[len(dst)+2] == 'l' && res[len(dst)+3] == 'l'
 
 //@ func (Encoder).AppendBeginMarker(e, dst) res
 //@   props C01 C03
@@ -175,6 +176,7 @@ package json
 //@   flag tags !binary_log
 //@   requires valueok(dst)
 //@   ensures emitsvalue(res, dst)
+//@   ensures [C02] ncalls(strconv.AppendBool) == old(ncalls(strconv.AppendBool)) + 1 && callarg(strconv.AppendBool, old(ncalls(strconv.AppendBool)), 1) == val && same(res, callres(strconv.AppendBool, old(ncalls(strconv.AppendBool)), 0))
 
 //@ func (Encoder).AppendInt(e, dst, val) res
 //@   props C01
@@ -553,6 +555,12 @@ package json
 //@   flag tags !binary_log
 //@   requires valueok(dst) && cleanlayout(format)
 //@   ensures emitsvalue(res, dst)
+//@   ensures [C02] format == timeFormatUnix ==> ncalls(Time.Unix) == old(ncalls(Time.Unix)) + 1 && callarg(Time.Unix, old(ncalls(Time.Unix)), 0) == t && ncalls(strconv.AppendInt) == old(ncalls(strconv.AppendInt)) + 1 && callarg(strconv.AppendInt, old(ncalls(strconv.AppendInt)), 1) == callres(Time.Unix, old(ncalls(Time.Unix)), 0) && callarg(strconv.AppendInt, old(ncalls(strconv.AppendInt)), 2) == 10 && ncalls(Time.AppendFormat) == old(ncalls(Time.AppendFormat))
+//@   ensures [C02] format == timeFormatUnixMs ==> ncalls(Time.UnixNano) == old(ncalls(Time.UnixNano)) + 1 && callarg(Time.UnixNano, old(ncalls(Time.UnixNano)), 0) == t && ncalls(strconv.AppendInt) == old(ncalls(strconv.AppendInt)) + 1 && callarg(strconv.AppendInt, old(ncalls(strconv.AppendInt)), 1) == callres(Time.UnixNano, old(ncalls(Time.UnixNano)), 0) / 1000000 && callarg(strconv.AppendInt, old(ncalls(strconv.AppendInt)), 2) == 10 && ncalls(Time.AppendFormat) == old(ncalls(Time.AppendFormat))
+//@   ensures [C02] format == timeFormatUnixMicro ==> ncalls(Time.UnixNano) == old(ncalls(Time.UnixNano)) + 1 && callarg(Time.UnixNano, old(ncalls(Time.UnixNano)), 0) == t && ncalls(strconv.AppendInt) == old(ncalls(strconv.AppendInt)) + 1 && callarg(strconv.AppendInt, old(ncalls(strconv.AppendInt)), 1) == callres(Time.UnixNano, old(ncalls(Time.UnixNano)), 0) / 1000 && callarg(strconv.AppendInt, old(ncalls(strconv.AppendInt)), 2) == 10 && ncalls(Time.AppendFormat) == old(ncalls(Time.AppendFormat))
+//@   ensures [C02] format == timeFormatUnixNano ==> ncalls(Time.UnixNano) == old(ncalls(Time.UnixNano)) + 1 && callarg(Time.UnixNano, old(ncalls(Time.UnixNano)), 0) == t && ncalls(strconv.AppendInt) == old(ncalls(strconv.AppendInt)) + 1 && callarg(strconv.AppendInt, old(ncalls(strconv.AppendInt)), 1) == callres(Time.UnixNano, old(ncalls(Time.UnixNano)), 0) && callarg(strconv.AppendInt, old(ncalls(strconv.AppendInt)), 2) == 10 && ncalls(Time.AppendFormat) == old(ncalls(Time.AppendFormat))
+//@   ensures [C02] format != timeFormatUnix && format != timeFormatUnixMs && format != timeFormatUnixMicro && format != timeFormatUnixNano ==> ncalls(Time.AppendFormat) == old(ncalls(Time.AppendFormat)) + 1 && callarg(Time.AppendFormat, old(ncalls(Time.AppendFormat)), 0) == t && callarg(Time.AppendFormat, old(ncalls(Time.AppendFormat)), 2) == format && ncalls(strconv.AppendInt) == old(ncalls(strconv.AppendInt))
+//@   ensures [C02] format != timeFormatUnix && format != timeFormatUnixMs && format != timeFormatUnixMicro && format != timeFormatUnixNano ==> len(res) >= len(dst) + 2 && res[len(dst)] == '"' && res[len(res)-1] == '"'
 
 //@ func (Encoder).AppendTimes(e, dst, vals, format) res
 //@   props C01
@@ -593,6 +601,8 @@ package json
 //@   flag tags !binary_log
 //@   requires valueok(dst) && (useInt ==> unit != 0)
 //@   ensures emitsvalue(res, dst)
+//@   ensures [C02] useInt ==> ncalls(strconv.AppendInt) == old(ncalls(strconv.AppendInt)) + 1 && callarg(strconv.AppendInt, old(ncalls(strconv.AppendInt)), 1) == int64(d) / int64(unit) && callarg(strconv.AppendInt, old(ncalls(strconv.AppendInt)), 2) == 10 && ncalls(Encoder.AppendFloat64) == old(ncalls(Encoder.AppendFloat64))
+//@   ensures [C02] !useInt ==> ncalls(Encoder.AppendFloat64) == old(ncalls(Encoder.AppendFloat64)) + 1 && callarg(Encoder.AppendFloat64, old(ncalls(Encoder.AppendFloat64)), 3) == precision && ncalls(strconv.AppendInt) == old(ncalls(strconv.AppendInt))
 
 //@ func (Encoder).AppendDurations(e, dst, vals, unit, useInt, precision) res
 //@   props C01
